@@ -26,6 +26,11 @@
            meanwhile), range and reduce)
    Every call of save()/load() of the implementation is one action here.
 
+   Not modelled here: which attributes the save_hdf5 / from_hdf5 pair of each tenpy class stores (the class
+   layer of C17 is checked observationally by checks/c17.py::class_layer; an exportable class enters this
+   model as kind "inst" -- memorized before its attributes are loaded, like Hdf5Exportable.from_hdf5 and the
+   from_hdf5 of ChargeInfo, LegCharge, Array, MPS, MPO, Lattice do); masked arrays; the `exclude` option.
+
    Theorems (INVARIANTs): the file mirrors the graph (one h5 object per python object, hard links
    exactly for shared references); Load(Save(g)) is isomorphic to g as rooted ordered graph
    (hence sharing and cycles survive) unless a hard link to a tuple *that is still being loaded*
